@@ -107,6 +107,21 @@ def run(ctx):
             sb, tt, ft, c = sw[0]
             R.must_pass(ctx, "C05.R3", fe.key, r"encoder::data::field::write_cigar$", "encode() writes the CG tag when the op count overflowed",
                         only_if_edge=tt, fn=fe)
+            # exactly one CG field: on the overflow edge the record's data goes through the CG-filtering generic writer, never through the
+            # raw copy of field-encoded data, which may already carry the carrier tag of a lazily read record (defect F44)
+            appends = [b for b, c2 in R.find_calls(fe, r"encoder::data::field::write_cigar$")]
+            raws = [b for b, c2 in R.find_calls(fe, r"encoder::data::write_data$")]
+            gens = [b for b, c2 in R.find_calls(fe, r"encoder::data::write_generic_data$")]
+            dup = [a for a in appends if any(C.dominates(fe, r_, a) for r_ in raws) or not any(C.dominates(fe, g_, a) for g_ in gens)]
+            if not appends:
+                pass
+            elif dup:
+                ctx.violation("C05.R3", "C05.R3/cg-appended-after-raw-data/" + fe.key,
+                              "encode() appends the CG field behind data written by write_data(): field-encoded data (a lazy bam::Record) is "
+                              "copied verbatim, including the CG carrier it already has, so a record with more than 65535 CIGAR operations is "
+                              "written with two CG fields and does not decode", fe.loc(dup[0]))
+            else:
+                ctx.ok("C05.R3", fe.key + " :: the CG append follows the CG-filtering generic data writer", "", fe.loc(appends[0]))
         R.must_pass(ctx, "C05.R3", fe.key, r"encoder::cigar::overflowing_write_cigar_op_count$", "encode() writes the op count through the overflow-aware helper", fn=fe)
     R.must_pass(ctx, "C05.R3", B + "record::codec::decoder::decode", r"decoder::cigar::resolve$", "decode() resolves the CG-tag placeholder")
     fl = ctx.anchor("C05.R3", B + "record_ref::RecordRef::<'a>::cigar")
